@@ -384,6 +384,16 @@ void mc_not_exhaustive(const char *why)
 	S->not_exhaustive = 1;
 }
 
+void mc_restart_worker(void)
+{
+	/* a violation has been reported and process-wide state (allocation accounting, library
+	 * statics) is no longer trustworthy: end this worker, the parent resumes after this case */
+	if (mc_replaying)
+		return;
+	S->crash_reported = 1;
+	_exit(99);
+}
+
 int mc_mine(uint64_t k)
 {
 	return (int)(k % (uint64_t)mc_nshards) == mc_shard;
